@@ -25,15 +25,15 @@ import (
 // (c) every loop driven by script or witness data has a strictly advancing, input-bounded variant.
 
 var c01TotalExceptions = map[string]string{
-	"depth|lib/script.VerifyTxScript|pop|stack":                                           "P2SH: stackCopy is non-empty here because a pay-to-script-hash scriptPubKey (HASH160 <20> EQUAL) evaluated on an empty stack fails in OP_HASH160, so the scriptPubKey evaluation above already returned false (the same argument as the assert in Bitcoin Core's VerifyScript)",
-	"panic|lib/script.VerifyTxScript|VER_CLEANSTACK without VER_P2SH":                     "inconsistent flag set, excluded by the property's quantifier (flag sets satisfy Core's dependencies)",
-	"panic|lib/script.VerifyTxScript|VER_WITNESS must be used with P2SH":                  "inconsistent flag set, excluded by the property's quantifier",
-	"bounds|lib/script.evalScript|alloc|make([][]byte, n)":                                "OP_ROLL: n < stack.size() is tested just before, and the combined stack size is kept <= 1000 by the test after every opcode (R-C01-rules) and by the tapscript initial-stack rule",
-	"bounds|lib/script.evalScript|progress|loop i >= 0":                                   "OP_ROLL: counts down from n-1 with n < stack.size() <= 1000",
-	"bounds|(*lib/script.scrStack).pushInt|progress|loop val != 0":                        "shifts a value right by 8 bits per iteration; the values pushed are results of arithmetic on at most 4-byte (CHECKSIGADD: 4-byte plus one) script numbers, so |val| < 2^33 and the negation above cannot overflow",
-	"bounds|(*lib/script.scrStack).copy_from|index|s.data[i]":                             "s.data was allocated two lines above with len(x.data) and i ranges over x.data",
-	"bounds|lib/script.VerifyTxScript|index|tx.SegWit[i]":                                 "i is SigChecker.Idx, set by the callers to the index of an existing input; Tx.SegWit, when not nil, has one entry per input (btc.NewTx)",
-	"bounds|(*lib/script.SigChecker).ExecuteWitnessScript|progress|loop i < stack.size()": "i counts up to the number of witness items, which is bounded by the transaction size",
+	"depth|lib/script.VerifyTxScript|pop|stack":                                                                         "P2SH: stackCopy is non-empty here because a pay-to-script-hash scriptPubKey (HASH160 <20> EQUAL) evaluated on an empty stack fails in OP_HASH160, so the scriptPubKey evaluation above already returned false (the same argument as the assert in Bitcoin Core's VerifyScript)",
+	"panic|lib/script.VerifyTxScript|VER_CLEANSTACK without VER_P2SH":                                                   "inconsistent flag set, excluded by the property's quantifier (flag sets satisfy Core's dependencies)",
+	"panic|lib/script.VerifyTxScript|VER_WITNESS must be used with P2SH":                                                "inconsistent flag set, excluded by the property's quantifier",
+	"bounds|lib/script.evalScript|alloc|make([][]byte, n)":                                                              "OP_ROLL: n < stack.size() is tested just before, and the combined stack size is kept <= 1000 by the test after every opcode (R-C01-rules) and by the tapscript initial-stack rule",
+	"bounds|lib/script.evalScript|progress|loop (phi:i >= 0)":                                                           "OP_ROLL: counts down from n-1 with n < stack.size() <= 1000",
+	"bounds|(*lib/script.scrStack).pushInt|progress|loop (phi:val != 0)":                                                "shifts a value right by 8 bits per iteration; the values pushed are results of arithmetic on at most 4-byte (CHECKSIGADD: 4-byte plus one) script numbers, so |val| < 2^33 and the negation above cannot overflow",
+	"bounds|(*lib/script.scrStack).copy_from|index|s.data[i]":                                                           "s.data was allocated two lines above with len(x.data) and i ranges over x.data",
+	"bounds|lib/script.VerifyTxScript|index|tx.SegWit[i]":                                                               "i is SigChecker.Idx, set by the callers to the index of an existing input; Tx.SegWit, when not nil, has one entry per input (btc.NewTx)",
+	"bounds|(*lib/script.SigChecker).ExecuteWitnessScript|progress|loop (phi:i < (*lib/script.scrStack).size(param#1))": "i counts up to the number of witness items, which is bounded by the transaction size",
 }
 
 func c01Total(r *core.Run, p *core.Program, ev *ssa.Function) {
